@@ -7,22 +7,44 @@
    function), clock readings are arguments of Take/Reset. *)
 From Coq Require Import List NArith ZArith Bool Permutation.
 Import ListNotations.
-Require Import Base.Wire Base.PyStr C19.Model C19.Spec C19.Ledger C19.Order C19.Rate C19.Drain.
+Require Import Base.Wire Base.PyStr C19.Model C19.Spec C19.Ledger C19.Order C19.Rate C19.Drain C19.Encode.
 
-(* No loss: after any history, the messages accepted so far are exactly (as a
+(* Ledger: after any history, the messages accepted so far are exactly (as a
    multiset of stamped entries) those delivered, those dropped by a filter,
+   those takeMsg discarded because their line has no UTF-8 form (unsendable),
    those flushed by reset() and those still pending. *)
 Theorem C19_ledger : forall c filt ops s' evs,
   run_from c filt st0 ops = (s', evs) ->
-  Permutation (accepted evs) (delivered evs ++ dropped evs ++ flushed evs ++ pending s').
+  Permutation (accepted evs)
+    (delivered evs ++ dropped evs ++ unsendable evs ++ flushed evs ++ pending s').
 Proof. exact ledger. Qed.
 Print Assumptions C19_ledger.
 
+(* The unsendable bucket holds nothing but messages without a wire form, and
+   nothing without a wire form is ever handed to the driver: in every trace each
+   Delivered message is encodable (and so is what the filter chain makes of its
+   original), each Unsendable one is not. *)
+Theorem C19_only_unencodable_discarded : forall c filt ops s s' evs,
+  run_from c filt s ops = (s', evs) -> Forall (ev_sound filt) evs.
+Proof. exact trace_sound. Qed.
+Print Assumptions C19_only_unencodable_discarded.
+
+(* No loss, with the hypothesis where it is needed: if what the filter chain
+   makes of every accepted message has a wire form, takeMsg discards nothing and
+   accepted = delivered + dropped by a filter + flushed by reset + pending. *)
+Theorem C19_no_loss_encodable : forall c filt ops s' evs,
+  run_from c filt st0 ops = (s', evs) ->
+  (forall e, In e (accepted evs) -> enc_ok filt (snd e) = true) ->
+  unsendable evs = [] /\
+  Permutation (accepted evs) (delivered evs ++ dropped evs ++ flushed evs ++ pending s').
+Proof. exact no_loss_encodable. Qed.
+Print Assumptions C19_no_loss_encodable.
+
 (* No duplication: no accepted entry occurs twice among delivered, dropped,
-   flushed and pending. *)
+   unsendable, flushed and pending. *)
 Theorem C19_no_duplication : forall c filt ops s' evs,
   run_from c filt st0 ops = (s', evs) ->
-  NoDup (map fst (delivered evs ++ dropped evs ++ flushed evs ++ pending s')).
+  NoDup (map fst (delivered evs ++ dropped evs ++ unsendable evs ++ flushed evs ++ pending s')).
 Proof. exact no_duplication. Qed.
 Print Assumptions C19_no_duplication.
 
@@ -104,26 +126,16 @@ Theorem C19_filter_no_stall : forall c filt s now s1 evs dt,
 Proof. exact filter_no_stall. Qed.
 Print Assumptions C19_filter_no_stall.
 
-(* Full statement of the drain clause: whenever driver.die() is called, nothing
-   is pending.  The pinned code violates it (finding F18); proved: it holds on
-   the decidable domain drain_dom (throttleTime <= 0, rateLimit.join <= 0, every
-   takeMsg reads a clock later than the last queue release, die() after the end
-   of MOTD, dropping filters let the clock advance), and fails on a witness
-   outside it (default-like settings, three messages, die()). *)
-Theorem C19_drain_before_die_on_domain : forall c filt pre o s ev0 s' evs,
-  pos_delay filt -> drain_dom c filt (pre ++ [o]) = true ->
-  run_from c filt st0 pre = (s, ev0) -> step c filt s o = (s', evs) ->
-  In DriverDie evs -> pending s' = [].
-Proof. exact drain_before_die_on_domain. Qed.
-Print Assumptions C19_drain_before_die_on_domain.
-
-Theorem C19_drain_before_die_refuted :
-  exists c pre o s ev0 s' evs,
-    pos_delay pass_all /\ drain_dom c pass_all (pre ++ [o]) = false /\
-    run_from c pass_all st0 pre = (s, ev0) /\ step c pass_all s o = (s', evs) /\
-    In DriverDie evs /\ length (pending s') = 2%nat.
-Proof. exact drain_before_die_refuted. Qed.
-Print Assumptions C19_drain_before_die_refuted.
+(* Drain before close (repaired by the fix for finding C19.F18): whenever a call
+   kills the driver, nothing is pending -- for every state, every call, every
+   clock reading, every setting and every filter chain.  The only other way the
+   driver is killed is die() itself before the end of MOTD, which closes the
+   unregistered connection at once by design. *)
+Theorem C19_drain_before_die : forall c filt s o s' evs,
+  step c filt s o = (s', evs) -> In DriverDie evs ->
+  pending s' = [] \/ (o = Die /\ afterConnect s = false).
+Proof. exact drain_before_die. Qed.
+Print Assumptions C19_drain_before_die.
 
 (* Eventual delivery of a held-back JOIN, step-level part only (hence _partial):
    a failed attempt keeps the JOIN queued and does not move its deadline
